@@ -20,6 +20,7 @@ func installOracles(m *Monitors) {
 		&orC05{baseOracle: baseOracle{m}},
 		&orC06{baseOracle: baseOracle{m}},
 		&orC08{baseOracle: baseOracle{m}},
+		&orC09{baseOracle: baseOracle{m}},
 		&orC10{baseOracle: baseOracle{m}},
 		&orC11{baseOracle: baseOracle{m}},
 		&orC16{baseOracle: baseOracle{m}},
